@@ -67,7 +67,7 @@ def run_with_scenarios(mod, ctx):
         # run does not take.  If that branch cannot be analysed the property is NOT decided for those inputs: fail closed (exit 2)
         # instead of passing on the strength of the generic run alone.  (Forced alternatives pair a branch with generic, possibly
         # contradictory data; failing to analyse those is not held against the code.)
-        hard = [x for x in skipped if x.startswith("zero ")]
+        hard = list(skipped)       # (forced alternatives as well: a branch nobody could analyse is a branch nobody decided)
         if hard and not ctx.findings:
             raise AnalysisError("data-dependent branch not analysable for the specialised input: " + hard[0][:300])
 
